@@ -215,6 +215,15 @@ def run(case, ctx):
             elif r is not exp[i]:
                 ctx.violate(f"C01/test/{cname}/{tclass(k)}", f"test gave {r!r}, expected {exp[i]}")
 
+    # history: the same condition object filters another container and then the first one again
+    if r1 is not None:
+        other = ZOO_MAP if (is_map or kind == "key") else ZOO_LIST
+        call(cond.filter, other)
+        ok, fd2 = call(cond.filter, cont)
+        ctx.count("entry:refilter-after-other-container")
+        if not ok or list(fd2.result) != list(r1):
+            ctx.violate(f"C01/history/{cname}", f"the same condition object gives {fd2.result if ok else fd2!r} on a container it "
+                        f"gave {r1} for before being used on another container")
     judged = [e for e in exp if e is not M.SKIP]
     if (True in judged and False in judged) or n_undef:
         ctx.mark_nontrivial((cname, repr(leaf.get("args")), repr(leaf.get("kwargs")), repr(cont)))
